@@ -1,6 +1,6 @@
 (* C18 property theorems: defined names as a keyed list, and the partial-update law of option structures.
    The individual setter/getter pairs are decided on the implementation against these laws (DESIGN C18). *)
-From VF Require Import Base.Prelude Generated.Consts C18.Model C18.Proofs.
+From VF Require Import Base.Prelude Generated.Consts C18.Model C18.Proofs C18.Refine.
 
 Theorem C18_set_name : forall l n s r v, Uniq l ->
   let '(ok, l') := set_name l n s r v in
@@ -20,6 +20,17 @@ Print Assumptions C18_delete_exact.
 Theorem C18_names_unique : forall ops, Uniq (fold_left dstep ops []).
 Proof. intros ops. apply dstep_uniq. constructor. Qed.
 Print Assumptions C18_names_unique.
+
+(* refinement to the simplest specification: over EVERY history of SetDefinedName / DeleteDefinedName calls (accepted
+   or refused) GetDefinedName reads what a partial map from (name, scope) to reference holds after the same calls -
+   so an item reads back as set after any unrelated edits and a delete removes exactly that item *)
+Theorem C18_names_refine_map : forall ops n s, lookup n s (fold_left dstep ops []) = fold_left astep ops aempty n s.
+Proof. exact names_refine_map. Qed.
+Print Assumptions C18_names_refine_map.
+
+Example C18_refine_ex : fold_left astep [DSet [1] [] [7] true; DSet [2] [9] [8] true; DSet [1] [] [5] true; DDel [2] [9]] aempty [1] [] = Some [7]
+  /\ fold_left astep [DSet [1] [] [7] true; DSet [2] [9] [8] true; DDel [2] [9]] aempty [2] [9] = None.
+Proof. vm_compute. split; reflexivity. Qed.
 
 Theorem C18_partial_update : forall (A : Type) (cur : list A) (opt : list (option A)) (d : A), length cur = length opt ->
   length (override cur opt) = length cur /\
